@@ -780,40 +780,23 @@ Proof. split; reflexivity. Qed.
 
 (* ---------- the refutation beyond comp_limit ---------- *)
 Definition big_den : positive := Z.to_pos (10 ^ 1233).
+Definition big_text : str := match marshal KFloat (VFloat (FRat 1 big_den)) with Some s => s | None => [] end.
+Definition big_back : value := match unmarshal big_text with UOk _ v => v | _ => VNil end.
+
+Definition dfloat_eqb (a b : dval) : bool :=
+  match a, b with
+  | DFloat (n, d), DFloat (n', d') => (n =? n') && Pos.eqb d d'
+  | _, _ => false
+  end.
 
 Lemma refuted_bigrat : exists n d s v',
   Z.gcd n (Z.pos d) = 1 /\ marshal KFloat (VFloat (FRat n d)) = Some s /\ unmarshal s = UOk KFloat v'
   /\ ~ same_value (VFloat (FRat n d)) v'.
 Proof.
-  exists 1, big_den.
-  destruct (marshal KFloat (VFloat (FRat 1 big_den))) as [s|] eqn:M; [|vm_compute in M; discriminate M].
-  exists s. destruct (unmarshal s) as [k v'| |] eqn:U.
-  - exists v'. split; [reflexivity|]. split; [reflexivity|].
-    assert (E : (match marshal KFloat (VFloat (FRat 1 big_den)) with
-                 | Some t => match unmarshal t with
-                             | UOk KFloat (VFloat (FBig false _ e)) => negb (0 <=? e)
-                             | _ => false
-                             end
-                 | None => false end) = true) by (vm_compute; reflexivity).
-    rewrite M, U in E. destruct k; try discriminate E. split; [reflexivity|].
-    destruct v' as [| | | |f| |]; try discriminate E. destruct f as [|ng m e|]; try discriminate E.
-    destruct ng; try discriminate E. apply negb_true_iff in E.
-    assert (Hneg : e < 0) by (apply Z.leb_gt; exact E).
-    unfold same_value. cbn [vden fden]. rewrite E. intros H. injection H as H1 H2.
-    assert (Z.odd (Z.pos m) = true) by (rewrite <- H1; reflexivity).
-    (* 10^1233 is even, a power of two equal to it would have the odd part 5^1233 = 1 *)
-    assert (D : Z.pos big_den = 5 ^ 1233 * 2 ^ 1233) by (vm_compute; reflexivity).
-    assert (P : Z.pos (Z.to_pos (2 ^ (- e))) = 2 ^ (- e)) by (apply Z2Pos.id; apply Z.pow_pos_nonneg; lia).
-    apply (f_equal Z.pos) in H2. rewrite P, D in H2.
-    assert (O : Z.odd (5 ^ 1233) = true) by (vm_compute; reflexivity).
-    (* compare 2-adic valuations through odd_part *)
-    assert (Q1 : odd_part (Z.to_pos (Z.pos (Z.to_pos (5 ^ 1233)) * 2 ^ 1233)) = (Z.to_pos (5 ^ 1233), 1233))
-      by (apply odd_part_unique; [vm_compute; reflexivity|lia]).
-    assert (Q2 : odd_part (Z.to_pos (Z.pos 1 * 2 ^ (- e))) = (1%positive, - e))
-      by (apply odd_part_unique; [reflexivity|lia]).
-    rewrite Z2Pos.id in Q1 by (vm_compute; reflexivity).
-    rewrite Z.mul_1_l in Q2. rewrite H2 in Q1. rewrite Q1 in Q2. injection Q2 as Q2 _.
-    vm_compute in Q2. discriminate Q2.
-  - vm_compute in M. injection M as <-. vm_compute in U. discriminate U.
-  - vm_compute in M. injection M as <-. vm_compute in U. discriminate U.
+  exists 1, big_den, big_text, big_back.
+  split; [vm_compute; reflexivity|]. split; [vm_compute; reflexivity|]. split; [vm_compute; reflexivity|].
+  unfold same_value. intros H.
+  assert (B : dfloat_eqb (vden (VFloat (FRat 1 big_den))) (vden big_back) = false) by (vm_compute; reflexivity).
+  rewrite <- H in B. cbn [vden fden dfloat_eqb] in B.
+  rewrite Z.eqb_refl, Pos.eqb_refl in B. discriminate B.
 Qed.
